@@ -27,6 +27,7 @@ public class ByteBuf {
     public ByteBuf setShortLE(int i, int v) { setLE(i, v, 2); return this; } public ByteBuf setIntLE(int i, int v) { setLE(i, v, 4); return this; } public ByteBuf setLongLE(int i, long v) { setLE(i, v, 8); return this; }
     public ByteBuf writeBytes(byte[] b) { ens(b.length); System.arraycopy(b, 0, a, w, b.length); w += b.length; return this; }
     public ByteBuf readBytes(byte[] b) { chk(b.length); System.arraycopy(a, r, b, 0, b.length); r += b.length; return this; }
+    public int writeCharSequence(CharSequence s, Charset cs) { byte[] b = s.toString().getBytes(cs); writeBytes(b); return b.length; }
     public CharSequence readCharSequence(int n, Charset cs) { chk(n); String s = new String(a, r, n, cs); r += n; return s; }
     public byte getByte(int i) { return a[i]; }
     public byte[] toArray() { return java.util.Arrays.copyOfRange(a, r, w); }
